@@ -9,6 +9,7 @@
 mod core;
 mod driver;
 mod findings;
+mod model;
 mod props;
 mod space;
 mod subject;
